@@ -49,15 +49,18 @@ func clockSub(prop string) *engine.Sub {
 	return &engine.Sub{
 		Name:   name,
 		Serial: true,
-		Rule:   "E7: every time.Now() of the library is a choice point of the explorer (build overlay: time.Now -> verifshim/clock). Two-link chains, correctly aligned or with one deviation (broken link, wrong subject, wrong first audience, root not issued by its subject), one token (leaf, root or invocation) carrying one bound B (nbf or exp); every sequence of clock readings over {B-1s, B-1ns, B+1ns, B+1s}, starting at each of them - time passing or being stepped back between the readings one check takes; both APIs. C01: a chain with an alignment deviation is never allowed, whatever the clock does. C04: a check none of whose readings lies inside the window is not allowed. C05: a check all of whose readings lie inside the window of a conforming chain is allowed; non-trivial = executions in which two readings differ",
+		Rule:   "E7: every time.Now() of the library is a choice point of the explorer (build overlay: time.Now -> verifshim/clock). Two-link chains, correctly aligned or with one deviation (broken link, wrong subject, wrong first audience, root not issued by its subject; for C02: the leaf or the root link grants a narrower command than the one passed on below it), one token (leaf, root or invocation) carrying one bound B (nbf or exp); every sequence of clock readings over {B-1s, B-1ns, B+1ns, B+1s}, starting at each of them - time passing or being stepped back between the readings one check takes; both APIs. C01, C02: a chain with a deviation is never allowed, whatever the clock does. C04: a check none of whose readings lies inside the window is not allowed. C05: a check all of whose readings lie inside the window of a conforming chain is allowed; non-trivial = executions in which two readings differ",
 		Bound: func(string) string {
-			return "5 deviations x 5 (bound, token) placements x 4 first readings x all reading sequences (4 options per reading) x 2 APIs"
+			return "5 deviations (C02: 2) x 5 (bound, token) placements x 4 first readings x all reading sequences (4 options per reading) x 2 APIs"
 		},
 		Setup: func(string) error { chainInit(); return nil },
 		Gen: func(tier string, emit func(any) bool) {
 			devs := []string{"none", "link", "subject", "firstAud", "root"}
 			if prop == "C04" || prop == "C05" {
 				devs = []string{"none"}
+			}
+			if prop == "C02" {
+				devs = []string{"cmdLeaf", "cmdRoot"}
 			}
 			for _, dev := range devs {
 				for _, bo := range [][2]any{{"nbf", 0}, {"nbf", 1}, {"exp", 0}, {"exp", 1}, {"exp", 2}} {
@@ -73,7 +76,7 @@ func clockSub(prop string) *engine.Sub {
 		Run: func(ctx *engine.Ctx, c any) {
 			cs := c.(*clockCase)
 			menu := clockMenu()
-			mk := func(iss, aud, sub int, on bool) *delegation.Token {
+			mk := func(iss, aud, sub int, on bool, cmd string) *delegation.Token {
 				var opts []delegation.Option
 				if on && cs.Bound == "nbf" {
 					opts = append(opts, delegation.WithNotBefore(clockB))
@@ -81,9 +84,10 @@ func clockSub(prop string) *engine.Sub {
 				if on && cs.Bound == "exp" {
 					opts = append(opts, delegation.WithExpiration(clockB))
 				}
-				return mustDlg(iss, aud, sub, "/a", nil, opts...)
+				return mustDlg(iss, aud, sub, cmd, nil, opts...)
 			}
 			li, la, ls, ri := 1, 2, 0, 0
+			lcmd, rcmd := "/a", "/a"
 			switch cs.Dev {
 			case "link":
 				li = 2
@@ -93,8 +97,12 @@ func clockSub(prop string) *engine.Sub {
 				la = 1
 			case "root":
 				ri = 2
+			case "cmdLeaf": // the leaf link grants /a/b only, /a is invoked
+				lcmd = "/a/b"
+			case "cmdRoot": // the root link grants /a/b only, the leaf link passes /a on
+				rcmd = "/a/b"
 			}
-			leaf, root := mk(li, la, ls, cs.On == 0), mk(ri, 1, 0, cs.On == 1)
+			leaf, root := mk(li, la, ls, cs.On == 0, lcmd), mk(ri, 1, 0, cs.On == 1, rcmd)
 			ld := &sliceLoader{cids: []cid.Cid{cidPool[0], cidPool[1]}, toks: []*delegation.Token{leaf, root}}
 			iopts := []invocation.Option{invocation.WithNonce(fixedNonce), invocation.WithoutInvokedAt()}
 			if cs.On == 2 {
@@ -159,7 +167,7 @@ func clockSub(prop string) *engine.Sub {
 						rs = append(rs, fmt.Sprintf("B%+dns", r.Sub(clockB).Nanoseconds()))
 					}
 					switch prop {
-					case "C01":
+					case "C01", "C02":
 						if cs.Dev != "none" && verdict == nil {
 							ctx.Failf(rc, "allowed-despite:"+cs.Dev+"/clock-moves-during-the-check", "a chain with deviation %q (%s=B on token %d) is allowed when the clock reads %v during the check", cs.Dev, cs.Bound, cs.On, rs)
 						}
